@@ -211,6 +211,14 @@ impl Amortised {
         Ok((errors, produced))
     }
 
+    /// a fresh package directory name under this engine's work dir
+    pub fn scratch_dir(&mut self) -> PathBuf {
+        let dir = self.work.join(format!("p{}", self.counter));
+        self.counter += 1;
+        self.last = dir.clone();
+        dir
+    }
+
     /// Compile std for both profiles now (so that the cost is not attributed to the first case).
     pub fn warm(&mut self) -> Result<()> {
         for p in Profile::BOTH {
